@@ -33,7 +33,11 @@ theorem C15_gen_shape :
     OtlpTables.expThrottleStatuses = [429, 503] ∧ OtlpTables.recvThrottleStatuses = [429, 503] ∧
     OtlpTables.retryAfterRoundsUp = true ∧ OtlpTables.errorHandlerKeepsStatus = true ∧
     OtlpTables.methodStatus = 405 ∧ OtlpTables.contentTypeStatus = 415 ∧
-    OtlpTables.unmarshalStatus = 400 ∧ OtlpTables.readBodyStatus = 400 := by decide
+    OtlpTables.unmarshalStatus = 400 ∧ OtlpTables.readBodyStatus = 400 ∧
+    -- the stages in front of the handlers (confighttp / configgrpc): statuses, and `ToServer` wraps decompressor → max-body → auth,
+    -- i.e. the authenticator runs first, as `httpFront` has it
+    OtlpTables.authStatusHttp = 401 ∧ OtlpTables.encodingStatus = 400 ∧ OtlpTables.authCodeGrpc = 16 ∧
+    OtlpTables.authOutermost = true := by decide
 
 /-- the sender's inverse table sends each retryable HTTP status back to a retryable gRPC code and each
 non-retryable one to a non-retryable code: the error the exporter *returns* means what the wire said -/
@@ -213,6 +217,20 @@ theorem C15_commutes_http (o : Outcome) : expHttp (recvHttp o) = meaningHttp o :
 /-- **Throttle delay, HTTP.** Whatever delay the consumer asked for, an HTTP sender that is told to throttle
 waits at least that long (whole-second `Retry-After`, rounded up). Does not build on a tree that truncates. -/
 theorem C15_throttle_delay_http (c d d' : Nat) (h : expHttp (recvHttp (.status c (some d))) = .throttle d') : d ≤ d' := by
+  rw [C15_commutes_http] at h
+  simp only [meaningHttp] at h
+  split at h
+  · simp only [Verdict.throttle.injEq] at h
+    subst h
+    simp only [nsPerSec]
+    omega
+  · cases h
+
+/-- … and no more than the header's granularity allows: strictly less than one second above the requested delay. Together with
+`C15_throttle_delay_http` this pins the HTTP delay to "the requested delay rounded up to whole seconds" independently of how
+`meaningHttp` is written. -/
+theorem C15_throttle_delay_http_tight (c d d' : Nat) (h : expHttp (recvHttp (.status c (some d))) = .throttle d') :
+    d' < d + 1000000000 := by
   rw [C15_commutes_http] at h
   simp only [meaningHttp] at h
   split at h
@@ -484,32 +502,35 @@ theorem C15_client_errors_http (r : HttpReq) (sink : Outcome)
               simp only [Bool.not_eq_false] at h2 h3 h4 h7
               simp only [h1, h2, h3, h4, h5, h6, h7, Bool.not_true, Bool.not_false, Bool.false_eq_true, if_false, if_true]; decide
 
-/-- **Client errors, gRPC** (partial: an undecodable frame is answered by grpc-go itself with `Internal`,
-which is non-retryable but not a "client error" code; an unauthenticated call gets `Unauthenticated`). -/
+/-- **Client errors, gRPC** (partial: the statuses of the stages grpc-go handles itself are the library's choice — unknown
+method / unknown `grpc-encoding` → `Unimplemented`, oversized message → `ResourceExhausted`, undecodable frame → `Internal`, which is
+non-retryable but not a "client error" code; an unauthenticated call gets `Unauthenticated` from configgrpc's interceptor).
+Whatever the stage: not OK, the consumer is not invoked, the sender will not retry. -/
 theorem C15_client_errors_grpc_partial (r : GrpcReq) (sink : Outcome)
-    (h : r.authOk = some false ∨ r.bodyDecodes = false) :
+    (h : r.methodKnown = false ∨ r.encodingKnown = false ∨ r.fitsMaxRecv = false ∨ r.bodyDecodes = false ∨ r.authOk = some false) :
     (grpcFront r sink).1.code ≠ 0 ∧ (grpcFront r sink).2 = 0 ∧ expGrpc (grpcFront r sink).1 = .permanent ∧
-      (r.bodyDecodes = true → (grpcFront r sink).1.code = 16) := by
+      (r.methodKnown = true → r.encodingKnown = true → r.fitsMaxRecv = true → r.bodyDecodes = true → (grpcFront r sink).1.code = 16) := by
+  obtain ⟨a, bd, n, mk, ek, fm⟩ := r
+  simp only at h ⊢
   unfold grpcFront
-  by_cases h1 : r.bodyDecodes = false
-  · simp only [h1, Bool.not_false, if_true]; decide
-  · have h2 : r.authOk = some false := by
-      cases h with
-      | inl h => exact h
-      | inr h => exact absurd h h1
-    simp only [Bool.not_eq_false] at h1
-    simp only [h1, h2, Bool.not_true, Bool.false_eq_true, if_false, if_true]; decide
+  cases mk <;> cases ek <;> cases fm <;> cases bd <;> simp only [Bool.not_true, Bool.not_false, Bool.false_eq_true, if_false, if_true] <;>
+    first
+    | decide
+    | (have ha : a = some false := by simpa using h
+       subst ha
+       simp only [if_true]
+       decide)
 
 /-- **Empty acknowledgement.** A well-formed request with no items is acknowledged as success without
 invoking the consumer, whatever the consumer would have answered — on both transports. -/
 theorem C15_empty_ack (sink : Outcome) (auth : Option Bool) (ct : CType) (ha : auth ≠ some false) (hct : ct ≠ .other) :
     httpFront ⟨auth, true, true, true, ct, true, true, 0⟩ sink = (⟨200, none, 0⟩, 0) ∧
     expHttp (httpFront ⟨auth, true, true, true, ct, true, true, 0⟩ sink).1 = .success ∧
-    grpcFront ⟨auth, true, 0⟩ sink = (⟨0, none⟩, 0) ∧
-    expGrpc (grpcFront ⟨auth, true, 0⟩ sink).1 = .success := by
+    grpcFront ⟨auth, true, 0, true, true, true⟩ sink = (⟨0, none⟩, 0) ∧
+    expGrpc (grpcFront ⟨auth, true, 0, true, true, true⟩ sink).1 = .success := by
   have e1 : httpFront ⟨auth, true, true, true, ct, true, true, 0⟩ sink = (⟨200, none, 0⟩, 0) := by
     simp [httpFront, ha, hct, receive, recvHttp, recvStatus]
-  have e2 : grpcFront ⟨auth, true, 0⟩ sink = (⟨0, none⟩, 0) := by
+  have e2 : grpcFront ⟨auth, true, 0, true, true, true⟩ sink = (⟨0, none⟩, 0) := by
     simp [grpcFront, ha, receive, recvGrpc, recvStatus]
   refine ⟨e1, ?_, e2, ?_⟩
   · rw [e1]; decide
@@ -519,7 +540,7 @@ theorem C15_empty_ack (sink : Outcome) (auth : Option Bool) (ct : CType) (ha : a
 theorem C15_consumer_once (sink : Outcome) (auth : Option Bool) (ct : CType) (n : Nat)
     (ha : auth ≠ some false) (hct : ct ≠ .other) (hn : n ≠ 0) :
     httpFront ⟨auth, true, true, true, ct, true, true, n⟩ sink = (recvHttp sink, 1) ∧
-    grpcFront ⟨auth, true, n⟩ sink = (recvGrpc sink, 1) := by
+    grpcFront ⟨auth, true, n, true, true, true⟩ sink = (recvGrpc sink, 1) := by
   constructor
   · simp [httpFront, ha, hct, receive, hn]
   · simp [grpcFront, ha, receive, hn]
